@@ -379,6 +379,27 @@ def check_1d(chk, drv, sp, rng, nrand):
                              % (der, tag_), dict(case0, points=tag_, xs=[int(v) for v in xi]), expected=want, actual=[float(np.real(g_)) for g_ in np.ravel(got_)])
                     break
             chk.count('1-D evaluation with integer / list / float32 points')
+        # points that START like the spline's own grid moved by a constant (first step = one cell, extent = a whole number of cells) but
+        # whose interior points lie elsewhere: every point is evaluated where it is
+        br_ = np.asarray(sp.b.breaks, float)
+        if len(br_) >= 5:
+            h_ = float(br_[1] - br_[0])
+            n_ = min(len(br_), 7)
+            xg = float(br_[0]) + h_ * np.arange(n_)
+            xg[2:n_ - 1] += h_ * np.array([0.37, -0.21, 0.45, 0.13, -0.4])[:n_ - 3]
+            xg = np.clip(xg, sp.a, sp.bnd)
+            want = [float(np.real(s.eval(float(v), der))) for v in xg]
+            outg = np.full(n_, np.nan)
+            okg = guarded(chk, 'Spline1D.eval_vector', dict(case0, points='grid-like'), lambda: (s.eval_vector(xg.copy(), outg, der), True)[1])
+            gota = guarded(chk, 'Spline1D.eval(array)', dict(case0, points='grid-like'), lambda: s.eval(xg.copy(), der))
+            tol_ = ORACLE_RTOL * sp.oscale(cmax, der)
+            for nm_, g_ in (('eval_vector', outg if okg else None), ('eval(array)', gota)):
+                if g_ is not None and not all(abs(float(np.real(a_)) - w_) <= tol_ for a_, w_ in zip(np.ravel(g_), want)):
+                    chk.fail('C07:grid-like-points', 'Spline1D.%s at points whose first step and extent look like a shifted grid but whose interior '
+                             'points lie elsewhere differs from the point-by-point values (der=%d)' % (nm_, der),
+                             dict(case0, xs_hex=hxs(xg)), expected=want, actual=[float(np.real(a_)) for a_ in np.ravel(g_)])
+                    break
+            chk.count('1-D evaluation at grid-like points with moved interior')
         if der == 1:
             for hd, arr, snap in held:
                 if not np.array_equal(np.asarray(arr), snap, equal_nan=True):
